@@ -1,3 +1,15 @@
+/// The value `interpolate_value` produces for a pair of frames at a position: uninterpreted here;
+/// its definition (start.lerp(end, start.easing((t - t0)/(t1 - t0))), start value for a
+/// zero-length pair) is what route K proves of the real function.
+pub uninterp spec fn spec_interpolate<Value: Clone>(p: [&SplitKeyframe<Value>; 2], t: f32) -> Value;
+
+#[verifier::external_body]
+fn interpolate_value<Value: Clone + Lerp>(bounding_frames: &[&SplitKeyframe<Value>; 2], time: f32) -> (r: Value)
+    ensures r == spec_interpolate(*bounding_frames, time)
+{
+    unimplemented!()
+}
+
 // ---- specification views of the private fields (closed: contracts of pub fns may use them) ----
 impl<Value: Clone> SplitKeyframe<Value> {
     pub closed spec fn spec_time(&self) -> f32 { self.normalized_time }
